@@ -194,6 +194,7 @@ class KeyModel:
     containers: dict[str, str] = field(default_factory=dict)  # type name -> elements|items|content|fields
     filter_prefix: str | None = None  # mapping keys with this prefix do not enter the key
     tries_hash: bool = False
+    hash_line: int | None = None
     fallback: bool = False  # ``obj.__dict__`` fallback exists
     fallback_class_sensitive: bool = False
     fallback_expr: str = ""
@@ -205,9 +206,19 @@ class KeyModel:
     ignore_filters_kwargs_only: bool = False
     default_hash_function: str = ""
 
+    def numbers_reach_builtin_hash(self) -> bool:
+        """numbers are keyed by ``hash(obj)``, which is not injective (``hash(-1) ==
+        hash(-2)``, ``hash(-1.0) == hash(-2.0)``), unless an earlier branch for the numeric
+        tower hashes an injective representation"""
+        if not self.tries_hash:
+            return False
+        handled = {n for n, mode in self.containers.items() if n in NUMBER_TYPE_NAMES and mode != "hash"}
+        return not ("Number" in handled or "Complex" in handled or {"int", "float", "complex"} <= handled or {"Real", "complex"} <= handled)
+
     def describe(self) -> dict:
         return {
             "dispatch_order": self.order,
+            "numbers_keyed_by_builtin_hash": self.numbers_reach_builtin_hash(),
             "mapping_key_filter_prefix": self.filter_prefix,
             "fallback": self.fallback_expr,
             "fallback_depends_on_class": self.fallback_class_sensitive,
@@ -257,6 +268,12 @@ def _filter_prefix_of(comp: ast.AST) -> str | None:
     return prefixes[0]
 
 
+TEXT_FUNCTIONS = {"repr", "str", "format", "float_repr", "dumps"}
+TEXT_METHODS = {"hex", "to_bytes", "as_integer_ratio", "__repr__", "__str__", "tobytes"}
+NUMBER_TYPE_NAMES = {"Number", "Real", "Complex", "Integral", "int", "float", "complex", "number", "floating", "integer", "inexact", "generic"}
+FLOATY_NAMES = {"Number", "Real", "Complex", "float", "complex", "number", "floating", "inexact", "complexfloating", "generic"}
+
+
 def _branch_mode(value: ast.AST, obj: str) -> tuple[str, str | None]:
     """how the returned expression of an isinstance branch uses the object"""
     for n in ast.walk(value):
@@ -268,6 +285,16 @@ def _branch_mode(value: ast.AST, obj: str) -> tuple[str, str | None]:
                 return "elements", None
     if _contains(value, lambda x: isinstance(x, ast.Call) and is_attr_of(x.func, obj, "tobytes")):
         return "content", None
+    raw_hash = _contains(value, lambda x: isinstance(x, ast.Call) and is_name(x.func, "hash") and len(x.args) == 1 and is_name(x.args[0], obj))
+    textual = _contains(
+        value,
+        lambda x: isinstance(x, ast.Call)
+        and ((dotted(x.func).split(".")[-1] in TEXT_FUNCTIONS and x.args and is_name(x.args[0], obj)) or (is_attr_of(x.func, obj) and x.func.attr in TEXT_METHODS)),
+    )
+    if textual and not raw_hash:
+        return "text", None  # an injective textual / binary representation is hashed
+    if raw_hash:
+        return "hash", None
     names = [n for n in ast.walk(value) if is_name(n, obj)]
     attrs = [n for n in ast.walk(value) if is_attr_of(n, obj)]
     if names and len(names) == len(attrs):
@@ -318,6 +345,7 @@ def read_key_model(ix: Index) -> KeyModel:
             km.order.append("fallback:obj.__dict__" + ("+class" if km.fallback_class_sensitive else ""))
         elif has(lambda x: isinstance(x, ast.Call) and is_name(x.func, "hash") and len(x.args) == 1 and is_name(x.args[0], obj)):
             km.tries_hash = True
+            km.hash_line = st.lineno
             km.order.append("hash(obj)")
         elif has(lambda x: isinstance(x, ast.Call) and x.args and is_name(x.args[0], obj)):
             # e.g. sha1(obj): objects exposing the buffer protocol are hashed by content
@@ -476,7 +504,7 @@ class Param:
     annotation: ast.expr | None
 
 
-@dataclass
+@dataclass(eq=False)
 class Site:
     func: FuncInfo
     kind: str  # cached_method | cached_property
@@ -1530,3 +1558,240 @@ def rebinds(f: FuncInfo, storages: set[str]) -> list[tuple[ast.stmt, str, ast.ex
             if is_attr_of(t, me) and mangle(t.attr, f.cls.name) in storages:
                 out.append((n, mangle(t.attr, f.cls.name), v))
     return out
+
+
+# =====================================================================================
+# 7. state a cached method reads vs. state the class family writes later
+# =====================================================================================
+MUTATOR_METHODS = {
+    "update", "setdefault", "pop", "popitem", "clear", "append", "extend", "insert", "remove", "sort", "reverse",
+    "add", "discard", "fill", "resize", "put", "itemset", "partition", "__setitem__", "__delitem__", "__ior__",
+}  # fmt: skip
+CONSTRUCTOR_NAMES = {"__init__", "__new__"}
+IMMUTABLE_ANNOTATION_NAMES = {"str", "int", "float", "bool", "complex", "bytes", "None", "Number", "Real", "tuple", "Literal"}
+
+
+def top_function(f: FuncInfo) -> FuncInfo:
+    while f.parent is not None:
+        f = f.parent
+    return f
+
+
+class StateFacts:
+    """which storage attributes of ``self`` a method reads (through self-calls and property
+    getters) and where the class family writes them"""
+
+    MAX_DEPTH = 8
+
+    def __init__(self, ix: Index, facts: ClassFacts):
+        self.ix = ix
+        self.facts = facts
+        self._callers: dict[str, set[FuncInfo]] | None = None
+        self._subs: dict[ClassInfo, list[ClassInfo]] = {}
+
+    def subclasses(self, cls: ClassInfo) -> list[ClassInfo]:
+        if cls not in self._subs:
+            self._subs[cls] = self.ix.subclasses(cls, strict=True)
+        return self._subs[cls]
+
+    # ------------------------------------------------------------ reads
+    def _defs(self, cls: ClassInfo, name: str) -> list[FuncInfo]:
+        """definition seen by ``cls`` plus overrides in its subclasses (non-setters)"""
+        out = []
+        f = cls.find_method(name)
+        if f is not None:
+            out.append(f)
+        for s in self.subclasses(cls):
+            for g in s.methods.get(name, []):
+                if g not in out and not any(d.endswith((".setter", ".deleter")) for d in g.decorator_names):
+                    out.append(g)
+        return out
+
+    def reads(self, cls: ClassInfo, f: FuncInfo) -> tuple[dict[str, list[str]], set[FuncInfo]]:
+        """(storage attribute -> how it is reached (chain of methods/properties), the
+        methods and getters that were followed)"""
+        out: dict[str, list[str]] = {}
+        seen: set[FuncInfo] = set()
+
+        def visit(g: FuncInfo, chain: tuple[str, ...], depth: int) -> None:
+            if g in seen or depth > self.MAX_DEPTH:
+                return
+            seen.add(g)
+            me = first_param(top_function(g))
+            if me is None or any(d in ("staticmethod", "classmethod") for d in top_function(g).decorator_names):
+                return
+            cname = g.cls.name if g.cls else None
+            # values the method establishes itself (`self.x = ...` followed by reads of
+            # `self.x`) are not a dependence on earlier state
+            own = {
+                t.attr
+                for n in walk_no_classes(g.node)
+                if isinstance(n, (ast.Assign, ast.AnnAssign))
+                for t in (n.targets if isinstance(n, ast.Assign) else [n.target])
+                if is_attr_of(t, me)
+            }
+            for n in walk_no_classes(g.node):
+                if not (is_attr_of(n, me) and isinstance(n.ctx, ast.Load)):
+                    continue
+                a = n.attr
+                if (a.startswith("__") and a.endswith("__")) or a in own:
+                    continue
+                defs = self._defs(cls, a)
+                if defs:
+                    for d in defs:
+                        visit(d, (*chain, display_name(d)), depth + 1)
+                    continue
+                out.setdefault(mangle(a, cname), list(chain))
+
+        visit(f, (display_name(f),), 0)
+        return out, seen
+
+    # ------------------------------------------------------------ constructor-only helpers
+    def callers_of(self, name: str) -> set[FuncInfo]:
+        """top-level functions of the package that contain a call ``<x>.<name>(...)`` or
+        ``<name>(...)`` (syntactic, any receiver: an over-approximation of the callers)"""
+        if self._callers is None:
+            self._callers = {}
+            for g in self.ix.all_functions():
+                if g.parent is not None:
+                    continue
+                for n in walk_no_classes(g.node):
+                    if isinstance(n, ast.Call):
+                        nm = n.func.attr if isinstance(n.func, ast.Attribute) else (n.func.id if isinstance(n.func, ast.Name) else None)
+                        if nm:
+                            self._callers.setdefault(nm, set()).add(g)
+                    elif isinstance(n, ast.Attribute) and isinstance(n.ctx, ast.Store):
+                        # `x.name = value` runs the property setter `name`
+                        self._callers.setdefault("=" + n.attr, set()).add(g)
+        return self._callers.get(name, set())
+
+    def constructor_only(self, f: FuncInfo, _seen: frozenset = frozenset()) -> bool:
+        """constructors, and plain methods whose every (syntactic) call site in the package
+        lies in a constructor or in another constructor-only helper"""
+        if f.node.name in CONSTRUCTOR_NAMES:
+            return True
+        if f in _seen or is_property(f) or any(d.endswith((".setter", ".deleter")) for d in f.decorator_names):
+            return False
+        callers = self.callers_of(f.node.name)
+        if not callers:
+            return False
+        return all(c is f or self.constructor_only(c, _seen | {f}) for c in callers)
+
+    # ------------------------------------------------------------ writes
+    def writes(self, cls: ClassInfo, f: FuncInfo) -> list[tuple[ast.stmt, str, str, ast.expr | None]]:
+        """(statement, storage, kind, value) for statements of `f` that re-bind
+        (``self.s = v``) or write in place (``self.s[...] = v``, ``self.s.update(...)``,
+        ``del self.s[k]``) an attribute of ``self``; properties are resolved to storage"""
+        me = first_param(f)
+        if me is None or f.cls is None or any(d in ("staticmethod", "classmethod") for d in f.decorator_names):
+            return []
+        cname = f.cls.name
+        out: list[tuple[ast.stmt, str, str, ast.expr | None]] = []
+
+        def base_attr(e: ast.AST) -> str | None:
+            while isinstance(e, ast.Subscript):
+                e = e.value
+            return e.attr if is_attr_of(e, me) else None
+
+        def storages(a: str) -> set[str]:
+            return self.facts.storage_of(cls, mangle(a, cname))
+
+        for st in walk_no_classes(f.node):
+            if isinstance(st, (ast.Assign, ast.AnnAssign, ast.AugAssign)):
+                targets = st.targets if isinstance(st, ast.Assign) else [st.target]
+                value = st.value
+                flat: list[ast.expr] = []
+                for t in targets:
+                    flat += list(t.elts) if isinstance(t, (ast.Tuple, ast.List)) else [t]
+                for t in flat:
+                    if is_attr_of(t, me):
+                        prop = cls.find_method(t.attr)
+                        if is_property(prop) and cls.find_method(t.attr, "setter") is not None:
+                            continue  # runs the setter, which is a method of the family itself
+                        if isinstance(st, ast.AnnAssign) and st.value is None:
+                            continue
+                        out.append((st, mangle(t.attr, cname), "re-bind", value if len(flat) == 1 else None))
+                    elif isinstance(t, ast.Subscript):
+                        a = base_attr(t)
+                        if a is not None:
+                            for s in sorted(storages(a)):
+                                out.append((st, s, "in-place", None))
+            elif isinstance(st, ast.Delete):
+                for t in st.targets:
+                    if isinstance(t, ast.Subscript):
+                        a = base_attr(t)
+                        if a is not None:
+                            for s in sorted(storages(a)):
+                                out.append((st, s, "in-place", None))
+            elif isinstance(st, ast.Expr) and isinstance(st.value, ast.Call) and isinstance(st.value.func, ast.Attribute):
+                fn = st.value.func
+                if fn.attr in MUTATOR_METHODS:
+                    a = base_attr(fn.value)
+                    if a is not None:
+                        for s in sorted(storages(a)):
+                            out.append((st, s, "in-place", None))
+        return out
+
+    def links_parameter(self, f: FuncInfo, value: ast.expr | None) -> str | None:
+        """``self.s = p`` with `p` an unmodified parameter of `f` that may hold a mutable
+        object: the attribute aliases an object owned by the caller"""
+        if not isinstance(value, ast.Name):
+            return None
+        a = f.node.args
+        params = {p.arg: p.annotation for p in a.posonlyargs + a.args + a.kwonlyargs}
+        if value.id not in params:
+            return None
+        for n in walk_no_classes(f.node):
+            if isinstance(n, (ast.Assign, ast.AugAssign, ast.AnnAssign)):
+                tg = n.targets if isinstance(n, ast.Assign) else [n.target]
+                if any(is_name(t, value.id) for t in tg):
+                    return None  # re-bound locally (e.g. converted / copied first)
+        ann = params[value.id]
+        if ann is not None:
+            names = {dotted(x).split(".")[-1] for x in ast.walk(ann) if isinstance(x, (ast.Name, ast.Attribute))}
+            names |= {"None" for x in ast.walk(ann) if isinstance(x, ast.Constant) and x.value is None}
+            if names and names <= IMMUTABLE_ANNOTATION_NAMES:
+                return None
+        return value.id
+
+
+def dominates(f: FuncInfo, first: ast.stmt, second: ast.stmt) -> bool:
+    """`first` is executed before `second` on every path through `f` that reaches
+    `second` (statement-list approximation)"""
+    ch = stmt_chains(f)
+    c1, c2 = ch.get(id(first)), ch.get(id(second))
+    if c1 is None or c2 is None:
+        return False
+    level = len(c1) - 1
+    if level >= len(c2) or c1[level][0] is not c2[level][0]:
+        return False
+    if any(c1[k][0] is not c2[k][0] or c1[k][1] != c2[k][1] for k in range(level)):
+        return False
+    return c1[level][1] < c2[level][1]
+
+
+def enclosing_stmt(f: FuncInfo, node: ast.AST) -> ast.stmt | None:
+    """innermost statement of `f` (known to stmt_chains) that contains `node`"""
+    ch = stmt_chains(f)
+    best, best_depth = None, -1
+    for st in walk_no_classes(f.node):
+        if isinstance(st, ast.stmt) and id(st) in ch and len(ch[id(st)]) > best_depth:
+            if any(x is node for x in ast.walk(st)):
+                best, best_depth = st, len(ch[id(st)])
+    return best
+
+
+def is_fresh_container(e: ast.AST | None) -> bool:
+    """expression that creates a new container object"""
+    if e is None:
+        return False
+    if isinstance(e, (ast.Dict, ast.DictComp, ast.List, ast.ListComp, ast.Set, ast.SetComp)):
+        return True
+    if isinstance(e, ast.BinOp) and isinstance(e.op, ast.BitOr):
+        return True  # `a | b` builds a new mapping
+    if isinstance(e, ast.Call):
+        name = dotted(e.func).split(".")[-1]
+        return name in {"dict", "copy", "deepcopy", "fromkeys", "OrderedDict", "defaultdict", "list", "set", "ChainMap"}
+    if isinstance(e, ast.IfExp):
+        return is_fresh_container(e.body) and is_fresh_container(e.orelse)
+    return False
